@@ -132,6 +132,7 @@ func TestC06(t *testing.T) {
 		"forged content reusing a valid signature block: every delivered frame must be justified by a reference-signed frame in the stream; with and without dialect; keys random / zero / 0xFF. " +
 		"writers: frame.Writer.WriteMessage(OutKey), streamwriter.Writer(Key), Node(OutKey): flag, link id, timestamp inside a before/after clock sandwich, signature = SHA-256 over the wire image; " +
 		"Node(InKey): only authenticated frames surface as EventFrame. distinct = distinct streams / emitted frames")
+	rep.RuleAdd("Rounds 12-15: the signing clock stepped backwards six times (hook VerifShiftSignatureClock); every pair of signature bytes altered by the same mask.")
 	rep.Assume("crypto/sha256 is the trusted base; the reference hashes the wire image, the implementation hashes field by field")
 	seed := vh.Seed()
 	all := shippedOrViolation(rep, t)
